@@ -170,8 +170,8 @@ def run_case(case):
         job["names_back"] = names_back_map(case["names"])
         job["adcgen_root"] = pp
         if base.get("text") and not re.search(r"\d\.\d", base["text"]):
-            # (t2eri_A is defined with a float prefactor 0.5; importing
-            #  floats is not part of this property)
+            # (texts with float literals are not imported here; t2eri_A/B
+            #  held the floats 0.5 / -0.5 until fix e0d2a77, finding F32)
             job["default_text"] = base["text"]
     got, err = run_worker(job, case["hashseed"], pp)
     r.sample = (f"{req} after history {case['history']} with PYTHONHASHSEED="
